@@ -76,8 +76,8 @@ fn hex14(s: &str) -> [u32; 14] {
     m
 }
 
-// @harness props=C03,C04,C05,C06,C07,C09,C10 tier=quick cap=600
-// ORACLE SELF-TEST: the reference oracles of /verif reproduce published / recorded vectors
+// @harness props=C03,C04,C05,C06,C07,C09,C10 tier=quick cap=600 native=1
+// ORACLE SELF-TEST (run natively, not through the solver: concrete inputs only): the reference oracles of /verif reproduce published / recorded vectors
 // (mode-s.org examples and the repository's own pinned test vectors). Concrete inputs only.
 #[cfg_attr(kani, kani::proof)]
 #[cfg_attr(kani, kani::unwind(120))]
@@ -91,7 +91,7 @@ fn oracle_selftest_vectors() {
     vassert!(address112(&hex28("A800120110010080F600001AFEDD"), 21) == 4921598, "oracle: DF21 address");
     vassert!(address56(&hex14("28001A1B1F0706"), 5) == 5023854, "oracle: DF5 address");
     vassert!(address112(&hex28("8D4CA86E58B15398DA1B2834CF37"), 17) == 5023854, "oracle: DF17 AA");
-    vassert!(rem56(&hex14("5D484FDEA248F5")) == 0, "oracle: CRC of a valid DF11 is not 0");
+    vassert!(rem56(&hex14("5D484FDEA248F5")) >> 7 == 0, "oracle: DF11 remainder of a valid all-call reply has non-zero upper bits");
     // altitude (mode-s.org: 8D40621D58C382D690C8AC2863A7 -> 38000 ft; DF20 A0001838.. -> AC13)
     vassert!(ac12(&hex28("8D40621D58C382D690C8AC2863A7")) == Alt::Ft(38000), "oracle: AC12 38000 ft");
     vassert!(ac13(&hex28("A8281200200464B3CF7820CD194C")) == Alt::Ft(14300), "oracle: AC13 14300 ft (repo test_alt)");
